@@ -69,6 +69,7 @@ def run(ctx):
     rule9(ctx, prog, flows, full)
     rule10(ctx, prog, flows)
     rule12(ctx, prog, flows, full)
+    rule13(ctx, prog, flows)
     relaxation_discipline(ctx, prog, flows, "R-C08-11", {"dijkstra::dijkstra": "full", "dijkstra::dijkstra_basic": "basic"})
 
 
@@ -1012,3 +1013,61 @@ def rule12(ctx, prog, flows, full):
             ctx.require(leaves(eq_succ) and not leaves(ne_succ), "R-C08-12", "target-exit|%d" % n, "the pop loop is left when the popped node is the target and goes on otherwise",
                         "the target test of the full kernel %s: the search %s" % ("leaves the pop loop on the outcome `popped node != target`" if leaves(ne_succ) else "does not leave the pop loop when the popped node is the target", "stops at the first popped node that is not the target, so the target (and everything else) is missing from the result" if leaves(ne_succ) else "goes on past the target: not wrong by itself, but then the `target` option no longer restricts anything and the early exit the option promises is gone"), loc_str(blk.term.span))
     ctx.counters["result_filters_and_target_exits"] = n
+
+
+def rule13(ctx, prog, flows):
+    """on a tie the paths of u gain every shortest path of v extended by u: the helper walks v's list (the SOURCE) and
+    pushes onto u's (the destination).  A walk whose length is taken from the destination list drops the surplus paths of
+    v when u has fewer, and indexes past the end of v's list when u has more."""
+    from hashord import natural_loop_blocks
+
+    ctx.rule("R-C08-13", "the tie helper iterates over the source node's path list (never over, or as long as, the destination's) while it pushes onto the destination's")
+    hs = prog.find("dijkstra::add_u_to_v_paths_and_append_v_paths_to_u_paths")
+    n = 0
+    for h in hs:
+        fl = flows.of(h)
+        up = [i for i in range(1, h.arg_count + 1) if h.local_ty(i) == "usize"]
+        if len(up) != 2:
+            continue
+        pushes = []
+        for t in h.calls():
+            if t.callee and t.callee.short.endswith("Vec::push") and t.args and "Vec<std::vec::Vec<usize>>" in t.args[0].place.ty:
+                d = panic.norm(panic.expand_names(fl, panic.norm(fl.describe(t.args[0], depth=8))))
+                dest = [i for i in up if desc_mentions(d, lambda x, _i=i: x[0] == "place" and x[1] == h.local_name(_i))]
+                if len(dest) == 1:
+                    pushes.append((t, dest[0]))
+        for (t, dest) in pushes:
+            src = [i for i in up if i != dest][0]
+            for nx in h.calls():
+                if not (nx.callee and nx.callee.short == "std::iter::Iterator::next"):
+                    continue
+                lb = natural_loop_blocks(h, nx.bb)
+                if t.bb not in lb:
+                    continue
+                n += 1
+                # which list is walked: the `paths[..]` lookups in the description of the iterated value (what is pushed
+                # INTO the copies -- u itself -- does not count)
+                itd = panic.norm(panic.expand_names(fl, panic.norm(fl.describe(nx.args[0], depth=12)), depth=8))
+                if isinstance(itd, tuple) and itd[0] == "place":
+                    # the `iter` variable of a desugared `for`: describe its own definition
+                    l0 = nx.args[0].place.local if nx.args[0].place is not None else None
+                    for _ in range(5):
+                        d0 = fl.single_def(l0) if l0 is not None else None
+                        if d0 is not None and getattr(d0, "rv", None) is not None and d0.rv.k in ("ref", "use") and (d0.rv.place is not None or (d0.rv.ops and d0.rv.ops[0].place is not None)):
+                            l0 = d0.rv.place.local if d0.rv.place is not None else d0.rv.ops[0].place.local
+                        else:
+                            break
+                    if l0 is not None and len(h.assigns_to(l0)) == 1 and getattr(h.assigns_to(l0)[0][1], "k", None) == "call":
+                        itd = panic.norm(panic.expand_names(fl, panic.norm(fl.describe_def(h.assigns_to(l0)[0][1], depth=12)), depth=8))
+
+                def _idx_of(name):
+                    return desc_mentions(itd, lambda x: x[0] == "call" and x[1].split("::")[-1] in ("index", "index_mut", "get") and len(x[2]) >= 2 and isinstance(x[2][1], tuple) and x[2][1][0] == "place" and x[2][1][1] == name) or desc_mentions(itd, lambda x: x[0] == "place" and "[" in x[1] and x[1].split("[")[0] in ("paths",) and False)
+
+                uses_dest = _idx_of(h.local_name(dest))
+                uses_src = _idx_of(h.local_name(src))
+                if not uses_src and not uses_dest:
+                    ctx.undecided("R-C08-13", "tie-walk|%d" % n, "which list the tie helper walks could not be read off the loop's iterator (%s)" % fmt_desc(itd)[:80], loc_str(nx.span))
+                    continue
+                ctx.require(uses_src and not uses_dest, "R-C08-13", "tie-walk|%d" % n, "the loop that appends to paths[%s] walks paths[%s]" % (h.local_name(dest), h.local_name(src)),
+                            "the loop that appends to paths[%s] takes its extent from %s: with fewer paths at `%s` than at `%s` shortest paths are silently dropped, with more the helper indexes past the end of the source list and panics" % (h.local_name(dest), "paths[%s]" % h.local_name(dest) if uses_dest else "neither list", h.local_name(dest), h.local_name(src)), loc_str(nx.span))
+    ctx.counters["tie_walks"] = n
